@@ -89,7 +89,7 @@ fn stress(id: u64, cfg: &Cfg, threads: usize, ops: usize, seed: u64, out: &mut d
         let mut ev = json!({"ev": "Sync", "now": w.now()});
         ev["snap"] = w.snapshot();
         ev["mx"] = json!([]);
-        let items = ev["snap"]["it"].clone();
+        let items = w.exec(&json!({"op": "Iter"}))["items"].clone();
         log.lock().unwrap().push(ev);
         log.lock().unwrap().push(json!({"ev": "Final", "items": items}));
         let want = if cfg.cap < 0 { cfg.nkeys as i64 } else { cfg.cap.min(cfg.nkeys as i64) };
@@ -204,7 +204,97 @@ fn burst(id: u64, threads: usize, n: usize, far: bool, cap: i64, out: &mut dyn W
     writeln!(out, "{}", json!({"ev": "Settled", "rlen": rl, "wlen": wl, "ec": cache.entry_count(), "count": cache.iter().count(), "cap": cap})).unwrap();
 }
 
+/// C16 beside writers: every key of a fixed set is updated by exactly one writer thread with
+/// increasing sequence numbers while iterator threads walk the cache. Logged: per key the
+/// (invoke, return) stamps of every write; per iteration its stamps and what it yielded.
+fn iter_beside_writers(id: u64, nkeys: u32, writers: usize, iters: usize, updates: usize, out: &mut dyn Write) {
+    REGISTRY_ON.store(false, Ordering::SeqCst);
+    let cfg = Cfg::from_json(&json!({"kind": "sync", "cap": -1, "nkeys": nkeys, "hasher": "mix", "seed": id}));
+    let (cache, _clock, _base) = mk_cache(&cfg);
+    let mut cj = cfg.to_json();
+    cj["ev"] = json!("Config");
+    cj["id"] = json!(id);
+    cj["threads"] = json!(writers + iters);
+    cj["mode"] = json!("iter");
+    writeln!(out, "{}", cj).unwrap();
+    // value id = sequence number of the write of that key (0: the initial insert)
+    for k in 1..=nkeys {
+        cache.insert(K::new(k), Val::new(0, 1));
+    }
+    cache.sync();
+    let stamp = Arc::new(AtomicU64::new(1));
+    let stop = Arc::new(AtomicBool::new(false));
+    let mut whs = Vec::new();
+    for w in 0..writers {
+        let (cache2, stamp2) = (cache.clone(), stamp.clone());
+        whs.push(std::thread::spawn(move || {
+            // this writer owns the keys k with k % writers == w
+            let mine: Vec<u32> = (1..=nkeys).filter(|k| (*k as usize) % writers == w).collect();
+            let mut log: Vec<(u32, Vec<(u64, u64)>)> = mine.iter().map(|k| (*k, Vec::new())).collect();
+            let mut rng = Rng::new(id * 131 + w as u64);
+            for _ in 0..updates {
+                if mine.is_empty() {
+                    break;
+                }
+                let i = rng.below(mine.len() as u64) as usize;
+                let seq = log[i].1.len() as u32 + 1;
+                let a = stamp2.fetch_add(1, Ordering::SeqCst);
+                cache2.insert(K::new(mine[i]), Val::new(seq, 1));
+                let b = stamp2.fetch_add(1, Ordering::SeqCst);
+                log[i].1.push((a, b));
+            }
+            log
+        }));
+    }
+    let mut ihs = Vec::new();
+    for _ in 0..iters {
+        let (cache2, stamp2, stop2) = (cache.clone(), stamp.clone(), stop.clone());
+        ihs.push(std::thread::spawn(move || {
+            let mut runs: Vec<Value> = Vec::new();
+            while !stop2.load(Ordering::SeqCst) && runs.len() < 40 {
+                let a = stamp2.fetch_add(1, Ordering::SeqCst);
+                let mut items: Vec<(u32, u32)> = cache2.iter().map(|e| (e.key().id, e.value().id)).collect();
+                let b = stamp2.fetch_add(1, Ordering::SeqCst);
+                items.sort();
+                runs.push(json!({"ev": "IterRun", "inv": a, "ret": b,
+                    "items": items.iter().map(|(k, s)| json!({"k": k, "s": s})).collect::<Vec<_>>()}));
+                std::thread::sleep(Duration::from_micros(300));
+            }
+            runs
+        }));
+    }
+    let mut kw: Vec<(u32, Vec<(u64, u64)>)> = Vec::new();
+    for h in whs {
+        kw.extend(h.join().unwrap());
+    }
+    stop.store(true, Ordering::SeqCst);
+    kw.sort_by_key(|x| x.0);
+    for (k, w) in kw {
+        writeln!(out, "{}", json!({"ev": "KeyWrites", "k": k, "w": w.iter().map(|(a, b)| json!([a, b])).collect::<Vec<_>>()})).unwrap();
+    }
+    for h in ihs {
+        for r in h.join().unwrap() {
+            writeln!(out, "{}", r).unwrap();
+        }
+    }
+}
+
 pub fn cmd_free(args: &[String]) {
+    if args[0] == "iter" {
+        // free iter <seed> <runs> <trace-out>
+        let seed: u64 = args[1].parse().unwrap();
+        let runs: u64 = args[2].parse().unwrap();
+        let mut out = std::io::BufWriter::new(std::fs::File::create(&args[3]).unwrap());
+        let mut rng = Rng::new(seed);
+        for i in 0..runs {
+            let nkeys = *rng.pick(&[8u32, 16, 24]);
+            let writers = 1 + rng.below(3) as usize;
+            let iters = 1 + rng.below(2) as usize;
+            iter_beside_writers(seed * 1000 + i, nkeys, writers, iters, 300, &mut out);
+        }
+        println!("{}", json!({"runs": runs}));
+        return;
+    }
     // free stress <seed> <runs> <threads> <ops> <trace-out> | free burst <seed> <trace-out>
     if args[0] == "stress" {
         let seed: u64 = args[1].parse().unwrap();
